@@ -89,6 +89,28 @@ def mentions(expr, consts) -> bool:
     return False
 
 
+def _stray_constants(expr, formals):
+    """uninterpreted 0-ary constants of `expr` that are neither formals nor global symbols (names minted by T.fresh_name)"""
+    ids = {c.get_id() for c in formals}
+    out, seen, stack = [], set(), [expr]
+    bound_depth = 0
+    while stack:
+        e = stack.pop()
+        i = e.get_id()
+        if i in seen:
+            continue
+        seen.add(i)
+        if z3.is_quantifier(e):
+            stack.append(e.body())
+            continue
+        if z3.is_const(e) and e.decl().kind() == z3.Z3_OP_UNINTERPRETED and i not in ids:
+            nm = e.decl().name()
+            if "!" in nm:
+                out.append(nm)
+        stack.extend(e.children())
+    return out
+
+
 def flatten_and(g):
     """Split a goal into its top-level conjuncts (also under a leading implication: A => (B and C))."""
     if z3.is_and(g):
@@ -261,6 +283,13 @@ class Executor:
             return self.eval(st, e.orelse)
         a = self.eval_guarded(st, e.body, c)
         b = self.eval_guarded(st, e.orelse, z3.Not(c))
+        a_none, b_none = isinstance(a, K) and a.v is None, isinstance(b, K) and b.v is None
+        if a_none != b_none and isinstance(b if a_none else a, (K, V)):
+            # `x if c else None` (or the mirror) with x of a plain (non-Optional) type: an Optional of that type
+            other = to_v(b if a_none else a)
+            if other.ty in (BOOL, INT):
+                ot = TOpt(other.ty)
+                a, b = coerce(a, ot), coerce(b, ot)
         a, b = self.unify_pair(a, b) if (isinstance(a, V) or isinstance(b, V)) else (to_v(a), to_v(b))
         return V(a.ty, z3.If(c, a.z, b.z))
 
@@ -414,6 +443,9 @@ class Executor:
                 r = z3.BoolVal(a.o is b.o)
             elif isinstance(a, V) and isinstance(b, V) and isinstance(a.ty, TOpt) and isinstance(a.ty.inner, TRef):
                 r = val_eq(a, b)
+            elif (isinstance(a, V) and isinstance(b, V) and isinstance(a.ty, TRef) and isinstance(b.ty, TOpt)
+                  and isinstance(b.ty.inner, TRef)):
+                r = val_eq(b, a)          # `ref is optional_ref` (mirror of the case above)
             else:
                 raise Unsupported(f"`is` between {a!r} and {b!r}")
             return z3.Not(r) if isinstance(op, ast.IsNot) else r
@@ -692,6 +724,33 @@ class Executor:
     def e_GeneratorExp(self, st, e):
         return PyObj(("genexp", e, dict(st.env)))
 
+    def flatten_comp_any(self, st, e):
+        """[y for x in xs for y in <expr of x>] (no filters, identity element) where the inner iterable is an arbitrary
+        PURE expression of list type: over-approximated by an UNCONSTRAINED fresh list of the inner element type (sound
+        for safety proofs: nothing is assumed about the result).  The inner expression is evaluated once, for a generic
+        element of xs, so that its own obligations (callee preconditions, non-None) are still emitted."""
+        g1, g2 = e.generators
+        ok = (not g1.ifs and not g2.ifs and isinstance(g1.target, ast.Name) and isinstance(g2.target, ast.Name)
+              and isinstance(e.elt, ast.Name) and e.elt.id == g2.target.id)
+        if not ok:
+            raise Unsupported("nested comprehension (only the flattening form is supported)")
+        outer = self.eval(st, g1.iter)
+        if isinstance(outer, V) and isinstance(outer.ty, TOpt):
+            outer = unwrap_opt(outer)
+        if not (isinstance(outer, V) and isinstance(outer.ty, TList)):
+            raise Unsupported("flatten: outer iterable is not a list")
+        a = z3.Int(T.fresh_name("qa"))
+        st2 = st.fork()
+        st2.assume(z3.And(0 <= a, a < seq_len(outer)))
+        self.bind_target(st2, g1.target, V(outer.ty.elem, z3.Select(seq_arr(outer), a)))
+        heap0 = dict(st2.heap)
+        inner = self.eval(st2, g2.iter)
+        if any(k in heap0 and heap0[k] is not v for k, v in st2.heap.items()):
+            raise Unsupported("flatten: inner iterable has an effect on the heap")
+        if not (isinstance(inner, V) and isinstance(inner.ty, TList)):
+            raise Unsupported("flatten: inner iterable is not a list")
+        return fresh_seq(inner.ty, st, "flat_any")
+
     # comprehension [f(x) for x in xs] (map only) -> fresh list defined pointwise
     def flatten_comp(self, st, e):
         """[x for xs in xss for x in xs] (no filters, identity element): fresh list with index maps both ways."""
@@ -700,7 +759,7 @@ class Executor:
               and isinstance(g2.iter, ast.Name) and g2.iter.id == g1.target.id
               and isinstance(e.elt, ast.Name) and e.elt.id == g2.target.id)
         if not ok:
-            raise Unsupported("nested comprehension (only the flattening form is supported)")
+            return self.flatten_comp_any(st, e)
         outer = self.eval(st, g1.iter)
         if not (isinstance(outer, V) and isinstance(outer.ty, TList) and isinstance(outer.ty.elem, TList)):
             raise Unsupported("flatten of non list-of-lists")
@@ -1252,15 +1311,22 @@ class Executor:
             env = {p: V(t, z) for p, t, z in zip(params, ptys, formals)}
             saved = ops.MODE["bounded"]
             ops.MODE["bounded"] = None
+            ops.MODE["pure"] = True
             try:
                 body = coerce(self.eval_fn_body(st0, fn, node, env), rty)
             finally:
                 ops.MODE["bounded"] = saved
+                ops.MODE["pure"] = False
             # closed facts used by the body (axioms of uninterpreted specs, tx_len(empty) == 0): kept and
             # assumed wherever the function is applied; anything mentioning the formals is quantified
             closed = []
             for z in st0.pc:
                 if mentions(z, formals):
+                    # a side condition that ties a FRESH constant to the formals would be quantified into a falsehood
+                    # (one constant for all arguments): refuse rather than assume it
+                    stray = _stray_constants(z, formals)
+                    if stray:
+                        raise Unsupported(f"recursive spec {sp.name}: its body needs a fresh value depending on the arguments ({stray[0]})")
                     closed.append(z3.ForAll(formals, z))
                 else:
                     closed.append(z)
